@@ -1,6 +1,7 @@
 """C04 — every connection is answered; no input can crash the server.
 P: no reachable unguarded panic site; S: no input-driven recursion; W: exactly one response write per path;
 E: error edges answer with the 400 constructor."""
+import re
 from ..callgraph import callee_name, is_transport_io
 from ..cfg import cfg_of
 from ..dataflow import du_of, place_key, val_ref_target
@@ -32,6 +33,13 @@ def panic_rule(ctx, chk, prop, rule_name, roots, cut=None, floor=1):
         nfn += 1
         for s in inv.sites(fn):
             sid = site_id(s)
+            if s.extra.get("contradicted") and s.status != "guarded":
+                r.instance(None, ok=False)
+                r.classify("contradicted")
+                r.violate("%s|%s|%s|definite" % (prop, rule_name.split("-")[0], sid),
+                          "definite panic: %s (%s) in %s is %s - it panics whenever it is reached; reachable: %s" % (s.what, s.producer, fn.def_, s.extra["contradicted"], G.fmt_path(seen, fn.def_)),
+                          s.file, s.line, fn.def_, {"site": sid})
+                continue
             if s.status in ("guarded", "exempt"):
                 r.instance(None, ok=True)
                 r.classify(s.status)
@@ -44,7 +52,7 @@ def panic_rule(ctx, chk, prop, rule_name, roots, cut=None, floor=1):
                 path = G.fmt_path(seen, fn.def_)
                 r.violate("%s|%s|%s|precondition" % (prop, rule_name.split("-")[0], sid),
                           "potential panic: %s (%s) in %s was allowlisted because a dominating test (%s) protects it, and that test no longer dominates the site; reachable: %s" % (
-                              s.what, s.producer, fn.def_, safe[sid]["requires"]["dominating_test"], path),
+                              s.what, s.producer, fn.def_, safe[sid]["requires"].get("dominating_test") or "a state flag that decides whether the site is reached", path),
                           s.file, s.line, fn.def_, {"site": sid, "allowlist_reason": safe[sid]["reason"]})
                 continue
             if sid not in safe:
@@ -55,7 +63,9 @@ def panic_rule(ctx, chk, prop, rule_name, roots, cut=None, floor=1):
                 if ents:
                     nsites = len([x for x in inv.sites(fn) if x.status not in ("guarded", "exempt") and x.kind == s.kind and x.what == s.what])
                     if nsites <= len(ents):
-                        cand = [e for e in ents if _requires_ok(fn, s, e)]
+                        # the constants of the operation are part of the reviewed argument (`len - 1` is not `len - 2`)
+                        consts = sorted(re.findall(r"const -?\w+", sid))
+                        cand = [e for e in ents if _requires_ok(fn, s, e) and sorted(re.findall(r"const -?\w+", e["site"])) == consts]
                         if cand:
                             safe[sid] = dict(cand[0], matched_by="function, kind and operation")
             msafe = None
@@ -92,9 +102,28 @@ def _requires_ok(fn, site, entry):
     if not req:
         return True
     import re
-    pat = re.compile(req["dominating_test"])
     cfg = cfg_of(fn)
     du = du_of(fn)
+    if req.get("dominating_flag"):
+        # a switch on a boolean state flag (a multi-def bool local whose definitions are the constants true / false) decides whether
+        # the site is reached: one of its edges dominates the site
+        for sb in cfg.live_blocks():
+            st = cfg.blocks[sb]["term"]
+            if st["k"] != "switch" or st.get("discr_ty") != "bool":
+                continue
+            v = du.val_operand(st["discr"])
+            while v[0] == "unop" and v[1] == "Not":
+                v = v[2]
+            if v[0] != "place" or v[1][1]:
+                continue
+            ds = du.defs.get(v[1][0], [])
+            if len(ds) < 2 or not all(d[0] == "assign" and d[3]["k"] == "use" and d[3]["ops"][0].get("k") == "const" for d in ds):
+                continue
+            succs = set([b for _, b in st["targets"]] + [st["otherwise"]])
+            if len(succs) > 1 and any(cfg.edge_dominates((sb, tb), site.bid) for tb in succs):
+                return True
+        return False
+    pat = re.compile(req["dominating_test"])
     for sb in cfg.live_blocks():
         st = cfg.blocks[sb]["term"]
         if st["k"] != "switch":
@@ -151,6 +180,25 @@ def run(ctx):
     recursion_rule(ctx, chk, "C04", "S-no-recursion", seen)
     from .. import loops
     loops.loop_rule(ctx, chk, "C04", "T-loops-terminate", seen)
+
+    # D: a contradiction rule over the whole program, start-up included: an unwrap that is only reached where a passed test has
+    # established the other variant (`if r.is_ok() { r.err().unwrap() }`) panics whenever it is reached; on the start-up path that
+    # means no connection is ever answered. Expected count: zero.
+    rd = chk.rule("D-no-contradicted-unwrap", "in every function of the crate reachable from main (start-up included): no unwrap/expect is dominated by a passed test that establishes the opposite variant of the value it unwraps")
+    everything = G.reachable([R.main] if R.main else roots)
+    nd = 0
+    for n in sorted(everything):
+        fn = F.fns.get(n)
+        if fn is None or fn.crate != "rws" or fn.kind == "Promoted" or n in seen:
+            continue       # functions reachable from the connection roots are covered by P above
+        for s_ in inv.sites(fn):
+            if s_.kind != "unwrap":
+                continue
+            nd += 1
+            bad = bool(s_.extra.get("contradicted")) and s_.status != "guarded"
+            rd.instance({"fn": n, "line": s_.line, "unwrap_of": s_.producer} if nd <= 3 or bad else None, not bad)
+            if bad:
+                rd.violate("C04|D|%s|definite" % site_id(s_), "definite panic outside the request path (start-up): %s (%s) in %s is %s" % (s_.what, s_.producer, n, s_.extra["contradicted"]), s_.file, s_.line, n)
 
     # W: exactly one response write on every entry->return path of each per-connection function
     rw = chk.rule("W-one-response-per-path", "on every entry->return path of a per-connection function the transport is written exactly once", floor=2)
